@@ -75,12 +75,23 @@ def v_unpack(s, b):
     return out
   w = sh_width(s[2])
   return [v_unpack(s[2], b >> (i * w)) for i in range(s[1])]
+def v_pack(s, v):
+  """input generation only (replay): the packed integer of a value tree"""
+  if s[0] == 'b': return v
+  if s[0] == 's':
+    r = 0
+    for (_, f), x in zip(s[1].fields, v): r = (r << sh_width(f)) | v_pack(f, x)
+    return r
+  w = sh_width(s[2]); r = 0
+  for i, x in enumerate(v): r |= v_pack(s[2], x) << (i * w)
+  return r
 def v_term(s, v):
   if s[0] == 'b': return f'VBits {zlit(v)}'
   items = [v_term(f, x) for f, x in (zip([f for _, f in s[1].fields], v) if s[0] == 's' else ((s[2], x) for x in v))]
   return ('VStruct [' if s[0] == 's' else 'VList [') + '; '.join(items) + ']'
 
 class NotWellTyped(Exception): pass
+class CreateFailed(Exception): pass
 
 def run(ctx):
   setup_impl_path()
@@ -188,28 +199,55 @@ def run(ctx):
     def ty(s):
       return mk_bits(s[1]) if s[0] == 'b' else s[1].pycls if s[0] == 's' else [ty(s[2])] * s[1]
     n0 = len(captured)
-    c.pycls = mk_bitstruct(c.name, {n: ty(s) for n, s in fields})
+    try:
+      c.pycls = mk_bitstruct(c.name, {n: ty(s) for n, s in fields})
+    except Exception as e:
+      ctx.violation('C06:create:' + hashlib.sha1(json.dumps(c.spec()).encode()).hexdigest()[:10],
+                    f'creating a legal bitstruct type (width {c.width}) raised {e!r}', {'shape': c.spec(), 'traceback': traceback.format_exc()[-1200:]})
+      if forced is not None: raise CreateFailed()
+      return None
     for fn_name, src, fn in captured[n0:]:
       c.src[fn_name] = src; c.fn_globals[fn_name] = fn.__globals__
     classes.append(c)
     return c
 
+  def from_spec(spec, cache):
+    """rebuild a class (and the classes nested in it) from the JSON description stored in a replay file"""
+    def sh(x):
+      if isinstance(x, str): return ('b', int(x[4:]))
+      if isinstance(x, dict):
+        if x['name'] not in cache: cache[x['name']] = gen_class(4, [(n, sh(t)) for n, t in x['fields']])
+        return ('s', cache[x['name']])
+      return ('l', len(x), sh(x[0]))
+    return sh(spec)[1]
+  rp = getattr(ctx, 'replay_data', None)
   # directed shapes first: the ones the property text singles out
-  b = lambda n: ('b', n)
-  c_in = gen_class(4, [('x', b(4)), ('y', b(4))])
-  gen_class(4, [('q', b(3))])                                                   # single leaf
-  gen_class(4, [('a', b(8)), ('b', b(8))])                                      # two fields of equal width
-  gen_class(4, [('l', ('l', 1, b(5)))])                                         # 1-element list
-  gen_class(4, [('a', b(8)), ('l', ('l', 3, ('l', 2, b(4)))), ('s', ('s', c_in)), ('m', ('l', 2, ('s', c_in))), ('self', b(1))])
-  gen_class(4, [('s', b(2)), ('self', ('s', c_in)), ('other', ('l', 2, b(3))), ('cls', b(1)), ('memo', b(1))])
-  gen_class(4, [('m', ('l', 3, ('l', 3, ('l', 2, ('s', c_in)))))])              # 3x3x2 list of structs
-  c_mid = gen_class(4, [('p', ('s', c_in)), ('q', ('l', 2, ('s', c_in)))])
-  c_top = gen_class(4, [('u', ('s', c_mid)), ('v', ('l', 2, ('s', c_mid))), ('w', b(1))])
-  gen_class(4, [('t', ('s', c_top)), ('t2', ('l', 1, ('s', c_top)))])           # depth 4
-  gen_class(4, [('big', b(1000)), ('l', ('l', 23, b(1)))])                      # total width 1023
-  gen_class(4, [('l', ('l', 3, ('l', 3, ('l', 2, b(56))))), ('e', b(15))])      # 1008 + 15 = 1023
-  nrand = 140 if quick else 900
-  while len(classes) < 12 + nrand:
+  try:
+    if rp is not None:
+      from_spec(rp['shape'], {})
+      raise StopIteration
+    b = lambda n: ('b', n)
+    c_in = gen_class(4, [('x', b(4)), ('y', b(4))])
+    gen_class(4, [('q', b(3))])                                                   # single leaf
+    gen_class(4, [('a', b(8)), ('b', b(8))])                                      # two fields of equal width
+    gen_class(4, [('l', ('l', 1, b(5)))])                                         # 1-element list
+    gen_class(4, [('a', b(8)), ('l', ('l', 3, ('l', 2, b(4)))), ('s', ('s', c_in)), ('m', ('l', 2, ('s', c_in))), ('self', b(1))])
+    gen_class(4, [('s', b(2)), ('self', ('s', c_in)), ('other', ('l', 2, b(3))), ('cls', b(1)), ('memo', b(1))])
+    gen_class(4, [('m', ('l', 3, ('l', 3, ('l', 2, ('s', c_in)))))])              # 3x3x2 list of structs
+    c_mid = gen_class(4, [('p', ('s', c_in)), ('q', ('l', 2, ('s', c_in)))])
+    c_top = gen_class(4, [('u', ('s', c_mid)), ('v', ('l', 2, ('s', c_mid))), ('w', b(1))])
+    gen_class(4, [('t', ('s', c_top)), ('t2', ('l', 1, ('s', c_top)))])           # depth 4
+    gen_class(4, [('big', b(1000)), ('l', ('l', 23, b(1)))])                      # total width 1023
+    gen_class(4, [('l', ('l', 3, ('l', 3, ('l', 2, b(56))))), ('e', b(15))])      # 1008 + 15 = 1023
+  except StopIteration:
+    pass
+  except CreateFailed:
+    BS._create_fn, BS.py = real_create, real_py
+    return
+  nrand = (140 if quick else 420) if rp is None else len(classes) - 12
+  tries = 0
+  while len(classes) < 12 + nrand and tries < 3 * nrand:
+    tries += 1
     gen_class(rng.choice([1, 2, 2, 3, 3, 4]))
   shape_defs = '\n'.join(f'Definition T{c.idx} : shape := {cls_term(c)}.' for c in classes)
   imports = 'Base.Prelude Struct.Shape Struct.Layout'
@@ -252,8 +290,9 @@ def run(ctx):
       ctx.violation(f'C06:tgen:{m}:layout:' + hashlib.sha1(json.dumps(c.spec()).encode()).hexdigest()[:10], f'generated {m} of a struct does not have the layout/coverage the property demands (shape in replay)',
                     {'shape': c.spec(), 'method': m, 'source': c.src[m], 'parsed': g_cases[i][:3000], 'expected_leaf_ranges': exp[0][:3000],
                      'expected_slice_tree': exp[1][:3000]}, found_input=False)
-  ctx.sample({'kind': 'tgen', 'shape': classes[4].spec(), 'to_bits': classes[4].src['to_bits'], 'from_bits': classes[4].src['from_bits'][-400:]})
-  ctx.sample({'kind': 'tgen-coq', 'case': g_cases[4 * 9][:600]})
+  k4 = min(4, len(classes) - 1)
+  ctx.sample({'kind': 'tgen', 'shape': classes[k4].spec(), 'to_bits': classes[k4].src.get('to_bits'), 'from_bits': (classes[k4].src.get('from_bits') or '')[-400:]})
+  if g_cases: ctx.sample({'kind': 'tgen-coq', 'case': g_cases[min(k4 * 9, len(g_cases) - 1)][:600]})
 
   # ---------------- (b) T-diff on values ----------------
   p_cases, p_meta = [], []      # to_bits:  (T, v, nbits, uint)
@@ -272,7 +311,10 @@ def run(ctx):
     walk = sorted({0, W - 1, rng.randrange(W), rng.randrange(W)})
     bvals = [0, full] + [1 << i for i in walk] + [full ^ (1 << walk[-1])] + [rng.getrandbits(W) for _ in range(nvals)]
     if not quick or c.idx < 12:
-      bvals += [1 << i for i in range(0, W, max(1, W // 40))]
+      bvals += [1 << i for i in range(0, W, max(1, W // 32))]
+    if rp is not None and c is classes[-1]:
+      if 'bits' in rp: bvals.insert(0, int(rp['bits'], 16) & full)
+      if 'value' in rp: bvals.insert(0, v_pack(s, rp['value']))
     bvals = list(dict.fromkeys(bvals))
     for bi, bv in enumerate(bvals):
       v = v_unpack(s, bv)
@@ -387,7 +429,9 @@ def run(ctx):
         except Exception as e:
           viol_value(op, c, f'{op} raised {e!r}', {'value': va, 'other': vb, 'traceback': traceback.format_exc()[-800:]})
 
-  def hexs(t): return t if len(t) < 400 else t[:400] + '...'
+  def hexs(t):
+    t = re.sub(r'\b\d{6,}\b', lambda m: hex(int(m.group(0))), t)
+    return t if len(t) < 400 else t[:400] + '...'
   bad = ctx.coq_bad_indices('pack', imports, shape_defs, 'shape * value * Z * Z', p_cases,
                             "let '(T, v, n, u) := c in typed T v && (width T =? n) && (pack T v =? u)", shard=500)
   for i in bad[:5]:
@@ -423,9 +467,9 @@ def run(ctx):
                        'to agree with the packed value for every bitstruct type, list fields included',
                   {'shape': c.spec(), 'value': v, 'error': err, 'generated___hash__': c.src.get('__hash__'),
                    'python': f'hash({c.name}.from_bits(Bits{c.width}({hex(int(packed(build(("s", c), v))))})))'})
-  ctx.sample({'kind': 'to_bits', 'shape': classes[4].spec(), 'coq': p_cases[[m[0].idx for m in p_meta].index(4)][:500]})
-  ctx.sample({'kind': 'scenario', 'coq': s_cases[len(s_cases) // 2][:700]})
-  ctx.sample({'kind': 'from_bits', 'coq': u_cases[len(u_cases) // 3][:500]})
+  if p_cases: ctx.sample({'kind': 'to_bits', 'shape': p_meta[len(p_cases) // 20][0].spec(), 'coq': p_cases[len(p_cases) // 20][:500]})
+  if s_cases: ctx.sample({'kind': 'scenario', 'coq': s_cases[len(s_cases) // 2][:700]})
+  if u_cases: ctx.sample({'kind': 'from_bits', 'coq': u_cases[len(u_cases) // 3][:500]})
   ctx.extra.update({'classes': len(classes), 'classes_with_list_field': sum(c.has_list for c in classes),
                     'classes_depth_hist': {str(d): sum(1 for c in classes if c.depth == d) for d in range(1, 5)},
                     'cases_tgen': len(g_cases), 'cases_to_bits': len(p_cases), 'cases_from_bits': len(u_cases), 'cases_eq': len(e_cases),
@@ -453,3 +497,20 @@ def main(ctx):
                          'generated method text checked in Coq against the layout (covers all values); per class values 0, all-ones, single-bit walks, random: '
                          'to_bits, from_bits, round trips, ==, hash, clone/deepcopy/@=/<<=+_flip followed by an in-place leaf write on either side; '
                          'distinct = distinct (shape, input) tuples, all non-trivial')
+
+def replay(ctx, r):
+  """re-run every check of this property on the shape (and value) stored in a replay file"""
+  data = r.get('replay', {})
+  if 'shape' not in data:
+    print('this replay names a proof obligation / tie, not an input; re-run ./check C06'); return main(ctx)
+  ctx.replay_data = data
+  ctx.build_props(extra_models=['theories/Struct/Layout.vo'])
+  ev = VERIF / 'evidence' / 'C06.json'
+  keep = ev.read_text() if ev.exists() else None
+  try:
+    run(ctx)
+  except Exception as e:
+    ctx.violation('C06:harness-crash', f'replay could not run: {e!r}', {'traceback': traceback.format_exc()}, found_input=False)
+  rc = ctx.finish(rule='replay of one stored shape/value')
+  if keep is not None: ev.write_text(keep)     # a replay does not replace the evidence of the last full run
+  return rc
